@@ -12,7 +12,7 @@ use std::time::Duration;
 
 /* ---------------------------------------------------------------- values */
 
-#[derive(Clone, Debug, PartialEq, Eq, Hash, serde::Serialize, serde::Deserialize)]
+#[derive(Clone, Debug, PartialEq, Eq, serde::Serialize, serde::Deserialize)]
 pub enum V {
     I(i64),
     S(String),
@@ -21,6 +21,26 @@ pub enum V {
     O(Box<V>),
     P(Box<V>, Box<V>),
     L(Vec<V>),
+}
+
+/// round 5: while set, `V: Hash` feeds only three bits of `to_int()` to the hasher — a LEGAL `Hash` (equal values hash
+/// equally) that is much coarser than `Eq`: many distinct keys share every hash. Code that identifies keys by their
+/// hash (a merge keyed on a carried `u64`, a dedup on hashes) then fuses distinct keys; `HashMap`/`HashSet` proper are
+/// unaffected. Toggled only between runs (`coarse_hash_cases`); requests made under it carry the kind `PIPEH`.
+pub static COARSE_HASH: std::sync::atomic::AtomicBool = std::sync::atomic::AtomicBool::new(false);
+impl std::hash::Hash for V {
+    fn hash<H: std::hash::Hasher>(&self, state: &mut H) {
+        if COARSE_HASH.load(std::sync::atomic::Ordering::Relaxed) { state.write_u8((self.to_int() & 7) as u8); return; }
+        match self {
+            V::I(i) => { state.write_u8(0); state.write_i64(*i); }
+            V::S(s) => { state.write_u8(1); s.hash(state); }
+            V::U => state.write_u8(2),
+            V::N => state.write_u8(3),
+            V::O(v) => { state.write_u8(4); v.hash(state); }
+            V::P(a, b) => { state.write_u8(5); a.hash(state); b.hash(state); }
+            V::L(vs) => { state.write_u8(6); state.write_usize(vs.len()); for v in vs { v.hash(state); } }
+        }
+    }
 }
 
 impl V {
@@ -169,7 +189,12 @@ pub enum BatchFn { Each(Fn_), Rev, Sumall, /* round 3: length-CHANGING chunk fun
 #[derive(Clone, Debug, PartialEq)]
 pub enum Comb { Count, Sum, Min, Max, MinT, MaxT, Dset, Topk(usize),
     /// USER combiners with non-`Option` accumulators (`pipe_ucomb.rs`): (sum mod m, count) pair; sorted-`Vec` union; max by (|x|, x)
-    USumMod(i64), UUnion, UMaxAbs }
+    USumMod(i64), UUnion, UMaxAbs,
+    /// round 5: a LAWFUL but NON-commutative user combiner — "last value seen" (`pipe_ucomb::Last`). `merge` is
+    /// associative with unit `create` and `merge(fold xs, fold ys) = fold(xs ++ ys)` (`Props/C05.lean::lawful_uLast`),
+    /// so the engine, which merges in partition order, must give the fold over the SOURCE order in both modes and with
+    /// or without the GBK lift. Only generated where the arrival order at the combine is determined (`gen_ordered_prog`).
+    ULast }
 #[derive(Clone, Copy, Debug, PartialEq)]
 pub enum JoinKind { Inner, Left, Right, Full }
 
@@ -260,7 +285,8 @@ impl BatchFn {
 impl Comb {
     pub fn enc(&self) -> String {
         match self { Comb::Count => "count".into(), Comb::Sum => "sum".into(), Comb::Min => "min".into(), Comb::Max => "max".into(), Comb::MinT => "mint".into(), Comb::MaxT => "maxt".into(), Comb::Dset => "dset".into(), Comb::Topk(k) => format!("topk {k}"),
-            Comb::USumMod(m) => format!("usummod {m}"), Comb::UUnion => "uunion".into(), Comb::UMaxAbs => "umaxabs".into() }
+            Comb::USumMod(m) => format!("usummod {m}"), Comb::UUnion => "uunion".into(), Comb::UMaxAbs => "umaxabs".into(),
+            Comb::ULast => "ulast".into() }
     }
     /// reference fold over plain values (independent of ironbeam and of the Lean model)
     pub fn reference(&self, vals: &[V]) -> Result<V, ()> {
@@ -276,6 +302,7 @@ impl Comb {
             Comb::USumMod(m) => V::pair(V::I((vals.iter().map(|x| x.to_int() as i128).sum::<i128>().rem_euclid(*m as i128)) as i64), V::I(vals.len() as i64)),
             Comb::UUnion => { let mut s: Vec<V> = vals.to_vec(); s.sort(); s.dedup(); V::L(s) }
             Comb::UMaxAbs => vals.iter().max_by(|a, b| a.to_int().unsigned_abs().cmp(&b.to_int().unsigned_abs()).then_with(|| a.cmp(b))).cloned().unwrap_or(V::N),
+            Comb::ULast => vals.last().cloned().unwrap_or(V::N),
         })
     }
 }
@@ -496,7 +523,8 @@ impl Prog {
     }
     /// request text for a given mode (`seq`, `par:N`, `lit`, `noreorder`)
     pub fn request(&self, mode: &str) -> String {
-        let kind = if self.steps.iter().any(|s| matches!(s, Step::JoinX(..))) { "PIPEJ" } else { "PIPE" };
+        let kind = if self.steps.iter().any(|s| matches!(s, Step::JoinX(..))) { "PIPEJ" }
+            else if COARSE_HASH.load(std::sync::atomic::Ordering::Relaxed) { "PIPEH" } else { "PIPE" };
         format!("{kind} mode={mode} canon={} src {}{}", self.canon(), V::L(self.src.clone()).enc(), steps_enc(&self.steps))
     }
 }
@@ -615,6 +643,7 @@ pub fn apply_step(c: Coll, s: &Step) -> Coll {
                 Comb::USumMod(m) => Coll::KV(x.combine_values(crate::pipe_ucomb::SumModCount(m))),
                 Comb::UUnion => Coll::KV(x.combine_values(crate::pipe_ucomb::SortedUnion)),
                 Comb::UMaxAbs => Coll::KV(x.combine_values(crate::pipe_ucomb::MaxAbs)),
+                Comb::ULast => Coll::KV(x.combine_values(crate::pipe_ucomb::Last)),
             }
         }
         Step::CombineValuesLifted(cb) => {
@@ -631,6 +660,7 @@ pub fn apply_step(c: Coll, s: &Step) -> Coll {
                 Comb::USumMod(m) => Coll::KV(x.combine_values_lifted(crate::pipe_ucomb::SumModCount(m))),
                 Comb::UUnion => Coll::KV(x.combine_values_lifted(crate::pipe_ucomb::SortedUnion)),
                 Comb::UMaxAbs => Coll::KV(x.combine_values_lifted(crate::pipe_ucomb::MaxAbs)),
+                Comb::ULast => Coll::KV(x.combine_values_lifted(crate::pipe_ucomb::Last)),
             }
         }
         Step::CombineGlobally(cb, fo) => {
@@ -647,6 +677,7 @@ pub fn apply_step(c: Coll, s: &Step) -> Coll {
                 Comb::USumMod(m) => x.combine_globally(crate::pipe_ucomb::SumModCount(m), fo),
                 Comb::UUnion => x.combine_globally(crate::pipe_ucomb::SortedUnion, fo),
                 Comb::UMaxAbs => x.combine_globally(crate::pipe_ucomb::MaxAbs, fo),
+                Comb::ULast => x.combine_globally(crate::pipe_ucomb::Last, fo),
             })
         }
         Step::CombineGloballyLifted(cb, fo) => {
@@ -663,6 +694,7 @@ pub fn apply_step(c: Coll, s: &Step) -> Coll {
                 Comb::USumMod(m) => x.combine_globally_lifted(crate::pipe_ucomb::SumModCount(m), fo),
                 Comb::UUnion => x.combine_globally_lifted(crate::pipe_ucomb::SortedUnion, fo),
                 Comb::UMaxAbs => x.combine_globally_lifted(crate::pipe_ucomb::MaxAbs, fo),
+                Comb::ULast => x.combine_globally_lifted(crate::pipe_ucomb::Last, fo),
             })
         }
         Step::Distinct => Coll::T(as_t(c).distinct()),
@@ -790,6 +822,7 @@ pub fn with_watchdog<T: Send + 'static>(secs: u64, f: impl FnOnce() -> T + Send 
 
 /// build the program on a fresh pipeline and collect it with the REAL engine
 pub fn run_real(prog: &Prog, mode: Mode) -> Outcome {
+    crate::ctx::breadcrumb(&prog.request(&mode.enc()));
     let prog = prog.clone();
     let threads = PAR_THREADS.load(std::sync::atomic::Ordering::SeqCst);
     match with_watchdog(10, move || {
@@ -1131,6 +1164,63 @@ pub fn gen_prog_to(rng: &mut Rng, o: &GenOpts, target: Shape, depth: usize) -> P
     Prog { shape: target, src: vec![], steps: vec![] }
 }
 
+/// round 5: programs in which the ARRIVAL ORDER at the combine is the source order (no hash-ordered step upstream, at
+/// most one element-wise value step so the value-only reorder pass has nothing to sort), ending in a combine with the
+/// lawful NON-commutative combiner `ULast`: classic per-key, GBK + lifted (the planner's lift), global and global-lifted
+/// with every fan-out. The keys are skewed BY POSITION (head of the source: one or two keys; tail: up to eight), so
+/// that in a parallel run a later partition holds more distinct keys than the first — an engine that merges partition
+/// accumulators in any order other than partition order gives a different answer. Reference: the last value in source
+/// order (`Comb::reference`); model: `Comb.uLast` (`lawful_uLast`).
+pub fn gen_ordered_prog(rng: &mut Rng, parts_hint: usize) -> Prog {
+    let n = match rng.below(8) { 0 => rng.below(3), _ => 2 + rng.below(46) };
+    let head = rng.below(n + 1);
+    let src: Vec<V> = (0..n).map(|i| {
+        let nk = if i < head { 1 + rng.below(2) } else { 3 + rng.below(6) };
+        V::pair(V::I(rng.below(nk) as i64), V::I(rng.range(-9, 40)))
+    }).collect();
+    let mut steps = vec![];
+    match rng.below(4) { 0 => steps.push(Step::MapValues(Fn_::Add(rng.range(-3, 4)))), 1 => steps.push(Step::FilterValues(gen_pred(rng))), _ => {} }
+    match rng.below(5) {
+        0 => steps.push(Step::CombineValues(Comb::ULast)),
+        1 | 2 => { steps.push(Step::Gbk); steps.push(Step::CombineValuesLifted(Comb::ULast)); }
+        3 => { steps.push(Step::Values); steps.push(Step::CombineGlobally(Comb::ULast, gen_fanout(rng, parts_hint))); }
+        _ => { steps.push(Step::Values); steps.push(Step::CombineGloballyLifted(Comb::ULast, gen_fanout(rng, parts_hint))); }
+    }
+    Prog { shape: Shape::KV, src, steps }
+}
+/// round 5: `n` generated programs (barriers, joins, global combines) run with the COARSE `V: Hash` in sequential mode
+/// and two parallel modes. The model (`PIPEH` = `PIPE`) and the reference do not know about hashing at all.
+pub fn coarse_hash_cases(cx: &mut Ctx, n: usize, o: &CheckOpts) {
+    COARSE_HASH.store(true, std::sync::atomic::Ordering::SeqCst);
+    for i in 0..n {
+        let opts = GenOpts { max_steps: 5, max_rows: 40, barriers: true, joins: i % 4 == 0, globals: true, nonlocal_batches: false };
+        let mut p = gen_prog(&mut cx.rng, &opts);
+        if p.steps.iter().any(|s| matches!(s, Step::JoinX(..))) { continue; }
+        // more keys than hash classes: rows keyed 0..23 (eight hash classes under the coarse hash)
+        if p.shape == Shape::KV && i % 2 == 0 {
+            let m = 6 + cx.rng.below(60);
+            p.src = (0..m).map(|_| V::pair(V::I(cx.rng.below(24) as i64), V::I(cx.rng.range(-5, 9)))).collect();
+        }
+        // (the planner's value-only reorder pass is a recorded finding of C02/C03: keep it out of this block)
+        if !reorder_inert(&p) || matches!(reference(&p), RefOut::Panic) { continue; }
+        cx.count("pipe:coarse-hash");
+        let parts = 2 + cx.rng.below(5);
+        check_prog(cx, &p, &[Mode::Seq, Mode::Par(parts), Mode::Par(2)], o);
+    }
+    COARSE_HASH.store(false, std::sync::atomic::Ordering::SeqCst);
+}
+
+/// run `n` of them in sequential mode and two parallel modes
+pub fn ordered_comb_cases(cx: &mut Ctx, n: usize, o: &CheckOpts) {
+    for _ in 0..n {
+        let parts = 2 + cx.rng.below(6);
+        let p = gen_ordered_prog(&mut cx.rng, parts);
+        cx.count("pipe:ordered-noncommutative-combine");
+        let parts2 = 2 + cx.rng.below(3);
+        check_prog(cx, &p, &[Mode::Seq, Mode::Par(parts), Mode::Par(parts2)], o);
+    }
+}
+
 pub fn partition_choices(len: usize) -> Vec<usize> {
     let mut v = vec![1, 2, 3, len.saturating_sub(1).max(1), len.max(1), len + 1, 7, 64];
     v.sort();
@@ -1245,6 +1335,7 @@ pub fn build_file(p: &Pipeline, prog: &Prog, per: usize, dir: &std::path::Path) 
 }
 
 pub fn run_real_file(prog: &Prog, per: usize, mode: Mode) -> Outcome {
+    crate::ctx::breadcrumb(&format!("PIPEF per={per} {}", prog.request(&mode.enc())));
     let prog = prog.clone();
     let threads = PAR_THREADS.load(std::sync::atomic::Ordering::SeqCst);
     match with_watchdog(10, move || {
